@@ -585,11 +585,39 @@ def gen_dispatch():
     out.append("Definition g_parsings : list (string * string) := [%s]." % "; ".join('("%s", "%s")' % r for r in sorted(prow)))
     return "\n".join(out) + "\n"
 
+AC_MUTATORS = ("push|pop|clear|truncate|swap|iter_mut|drain|retain|insert|remove|extend|append|sort\\w*|reverse|resize\\w*|as_mut\\w*|get_mut|"
+               "last_mut|first_mut|fill\\w*|split_off|dedup\\w*|swap_remove|rotate_\\w+|copy_from_slice|clone_from\\w*|splice|split_at_mut|chunks_mut")
+
+
+def gen_ac():
+    """which methods of lib/src/adf.rs write the list of acceptance conditions of an existing object?
+    (the model passes that list to every semantics as an immutable argument)"""
+    src = open(os.path.join(REPO, "lib/src/adf.rs")).read()
+    cut = src.find("#[cfg(test)]\nmod test")
+    if cut >= 0:
+        src = src[:cut]
+    src = re.sub(r"//[^\n]*", "", src)
+    writers = set()
+    for m in re.finditer(r"\bfn (\w+)\b", src):
+        name = m.group(1)
+        try:
+            body = fn_text(src[m.start():], name)
+        except (Unsupported, IndexError, ValueError):
+            raise Unsupported("body of fn %s" % name)
+        pats = [r"&mut\s+self\s*\.\s*ac\b", r"\bself\s*\.\s*ac\s*(?:[-+*/|&^]|<<|>>)?=(?!=)", r"\bself\s*\.\s*ac\s*\[[^\]]*\]\s*(?:[-+*/|&^]|<<|>>)?=(?!=)",
+                r"\bself\s*\.\s*ac\s*\.\s*(?:%s)\s*\(" % AC_MUTATORS, r"\{[^{}]*\bac\b[^{}]*\}\s*=\s*(?:&mut\s+\*?)?self\b"]
+        if any(re.search(p, body) for p in pats):
+            writers.add(name)
+    out = ["(* GENERATED by tools/translate.py - do not edit *)", "From Coq Require Import String List.", "Import ListNotations.", "Local Open Scope string_scope.", "",
+           "(* methods of lib/src/adf.rs that assign, mutably borrow or call a mutating method on self.ac *)",
+           "Definition g_ac_writers : list string := [%s]." % "; ".join('"%s"' % w for w in sorted(writers))]
+    return "\n".join(out) + "\n"
+
 
 def main():
     os.makedirs(OUT, exist_ok=True)
     rc = 0
-    for name, fn in (("GenLeaf.v", gen_leaf), ("GenFeatures.v", gen_features), ("GenFlags.v", gen_flags), ("GenFilters.v", gen_filters), ("GenCli.v", gen_cli), ("GenDispatch.v", gen_dispatch)):
+    for name, fn in (("GenLeaf.v", gen_leaf), ("GenFeatures.v", gen_features), ("GenFlags.v", gen_flags), ("GenFilters.v", gen_filters), ("GenCli.v", gen_cli), ("GenDispatch.v", gen_dispatch), ("GenAc.v", gen_ac)):
         try:
             txt = fn()
         except Unsupported as e:
